@@ -39,9 +39,9 @@ import (
 func main() { vlib.Run("C34", run) }
 
 func run(c *vlib.Ctx) {
-	c.Rule("api: 0-70 ops {AddEntry,Cancel,Remove,AddBlock(honest|claimed CID != hash),AddBlockPresence/AddHave/AddDontHave,SetPendingBytes,Reset} over 6 payloads x 9 CID forms (v0, v1 dag-pb/raw, sha2-256 truncated to 20, sha2-512, blake2b-256, sha3-224, identity), boundary priorities, full flag; v1+v0 wire images, each re-read whole and through a one-byte reader, plus ~100 byte-level mutants (flip, set, truncate, delete, insert, splice, length-prefix edits, field-level prefix/data edits). wire: crafted protobuf with duplicate entries, legacy+payload blocks, valid and invalid prefixes/CIDs. distinct = FNV of op list / crafted message; non-trivial = api: a merge on an existing entry, a block/presence collision and a block whose CID form is not the default v0/v1-sha2-256; wire: a duplicate entry or an invalid element")
-	c.Cases("api", c.N(2000, 30000), apiCase)
-	c.Cases("wire", c.N(1500, 20000), wireCase)
+	c.Rule("api: 0-70 ops {AddEntry,Cancel,Remove,AddBlock(honest|claimed CID != hash),AddBlockPresence/AddHave/AddDontHave,SetPendingBytes,Reset} over 6 payloads x 9 CID forms (v0, v1 dag-pb/raw, sha2-256 truncated to 20 and to 4 bytes, sha2-512, blake2b-256, sha3-224, identity), boundary priorities, full flag; v1+v0 wire images, each re-read whole and through a one-byte reader, plus ~100 byte-level mutants (flip, set, truncate, delete, insert, splice, length-prefix edits, field-level prefix/data edits). wire: crafted protobuf with duplicate entries, legacy+payload blocks, valid and invalid prefixes/CIDs. distinct = FNV of op list / crafted message; non-trivial = api: a merge on an existing entry, a block/presence collision and a block whose CID form is not the default v0/v1-sha2-256; wire: a duplicate entry or an invalid element")
+	c.Cases("api", c.N(2000, 16000), apiCase)
+	c.Cases("wire", c.N(1500, 10000), wireCase)
 }
 
 // ---------------------------------------------------------------- CID pool
@@ -68,7 +68,7 @@ var forms = []cidForm{
 	{"v1raw-blake2b256", func(d []byte) cid.Cid { return cid.NewCidV1(cid.Raw, sum(mh.BLAKE2B_MIN+31, -1, d)) }},
 	{"v1pb-sha3-224", func(d []byte) cid.Cid { return cid.NewCidV1(cid.DagProtobuf, sum(mh.SHA3_224, -1, d)) }},
 	{"v1raw-identity", func(d []byte) cid.Cid { return cid.NewCidV1(cid.Raw, sum(mh.IDENTITY, -1, d)) }},
-	{"v1json-sha256/1", func(d []byte) cid.Cid { return cid.NewCidV1(cid.DagJSON, sum(mh.SHA2_256, 1, d)) }},
+	{"v1json-sha256/4", func(d []byte) cid.Cid { return cid.NewCidV1(cid.DagJSON, sum(mh.SHA2_256, 4, d)) }},
 }
 
 // digest sizes of the non-identity hash functions used by forms
